@@ -59,6 +59,14 @@ let () = iter_lines (fun line ->
   | ["idle"; h] ->
       let s = bytes_of_hex h in
       show_flat "idle" (run_flat (idle_tags (nat_of_int (List.length s + 1))) s)
+  | ["chat"; h] ->
+      let s = bytes_of_hex h in
+      let (c, rest) = chat_outcome (nat_of_int (List.length s + 3)) s in
+      (match int_of_n c with
+       | 0 -> Printf.printf "chat ok %d\n" (int_of_n rest)
+       | 1 -> print_string "chat err\n"
+       | 2 -> print_string "chat panic\n"
+       | _ -> print_string "chat fuel\n")
   | ["trimu"; h] -> Printf.printf "trimu %s\n" (hex_of_bytes (trim_u (bytes_of_hex h)))
   | ["utags"; spec; h] ->
       let s = bytes_of_hex h in
